@@ -6,6 +6,11 @@ BASE = "cd /repo && go test -mod=mod -json -vet=off -count=1 -timeout 25m ./..."
 
 CLAIMED = {
  # id: (category, text, design_ref, level_note, technique)
+ "C12": ("other",
+  "Narrow structural claim: delegation between constituent kernels is nil-safe. For every call in models/ that passes the constant nil for an array parameter of another kernel, an interprocedural nil-ness summary shows the callee (and its callees) invoke methods on that parameter only under a `!= nil` guard. This is the path the property names explicitly (decay-disabled dissolved-constituent storage delegates to the lumped routing kernel) and it found a genuine nil-pointer panic, now fixed. The mass budgets, non-negativity and the flush rule are value properties and are NOT decided.",
+  "DESIGN.md section 2, C12",
+  "Only constant-nil arguments at static call sites between module functions are obligations; nil values arriving through variables are not tracked.",
+  "interprocedural nil-dereference summaries with guard-edge dominance on go/ssa"),
  "C07": ("other",
   "Local invariants of the ow-sim hand-off protocol and the offset agreement, decided on the SSA of cmd/ow-sim: tokens on the writer channel are only the writer's own generation posted after writeGeneration(g) or re-posted received tokens; PurgeGeneration is only applied to received tokens (so nothing is purged before it is written); every writer path writes its generation exactly once; writer spawn and final wait share one guard; the final wait leaves only on token == genCount-1; runGeneration(i) dominates the writer spawn and link processing, links add source Outputs into destination Inputs; the loaded row range and the write offset of a generation are computed from the same leaves (0, Batches[g-1], Batches[g]); a generation returned with Count>0 has Inputs/Parameters/States assigned on every feasible path (zero inputs if none stored). Graph semantics, link sums and interleavings are NOT explored.",
   "DESIGN.md section 2, C07",
